@@ -37,9 +37,9 @@ class Run:
         q = {"expr": interp.some(tagged("where")) if where is not None else interp.NONE,
              "fields": [tagged(t) for t in select], "ordering_fields": ofields, "ordering_asc": oasc,
              "grouping_fields": [tagged(t) for t in group], "roots": [], "limit": 0}
-        selfv = {"fms": {"__fms": True}, "query": q, "found": found, "use_colors": False, "results_writer": {"__rw": True},
+        selfv = interp.LazySelf({"fms": {"__fms": True}, "query": q, "found": found, "use_colors": False, "results_writer": {"__rw": True},
                  "output_buffer": {"__ob": True}, "raw_output_buffer": [], "partitioned_output_buffer": {"__pb": True},
-                 "config": {"debug": False}, "error_count": 0, "current_follow_symlinks": False}
+                 "config": {"debug": False}, "error_count": 0, "current_follow_symlinks": False})
 
         def text_of(x):
             if isinstance(x, dict) and "__tag" in x:
